@@ -6,6 +6,7 @@ Events are strings so that scripts are JSON-able:
   "@data"               connect to the last advertised passive port
   "@dsend <latin-1>"    send bytes on the data connection
   "@dclose"             close the data connection (FIN)
+  "@dstop"              stop reading from the data connection (window closes, connection stays open)
   "@drop" / "@rst"      the peer closes / resets every socket it has
   "@wait <seconds>"     let virtual time pass
 a trailing "!" = do not settle after the event (the next one follows at once)
@@ -88,6 +89,10 @@ class Rig:
             if s.data is not None:
                 with Running(w.loop):
                     s.data.send(e[7:].encode("latin-1"))
+        elif e == "@dstop":
+            # the peer keeps the data connection open but stops reading from it (its receive window closes)
+            if s.data is not None:
+                s.data.stop_reading()
         elif e == "@dclose":
             if s.data is not None:
                 with Running(w.loop):
